@@ -76,7 +76,9 @@ EXPLANATION = (
     "a name the policy allows with the operation enabled (touch_policy; the CMP operator name included - the "
     "CVE-2019-16328 shape), LOCAL_REF resolves only through this connection's table and every operand of every touch is "
     "a value from a message, a table member, the root or something the environment returned earlier (touch_caps, "
-    "table_growth), no pickle and no import / sys.modules lookup happens (no_pickle, no_import), every request is "
+    "table_growth); every table entry was put there by _box under that id pack, a LOCAL_REF yields only such a lent object, "
+    "and what the environment merely returned (modules, types, attribute values not yet sent) is not nameable by the peer "
+    "(table_only_lent, local_ref_only_lent, lent_known); the first pass of _unbox changes nothing (local_refs_resolved_first), no pickle and no import / sys.modules lookup happens (no_pickle, no_import), every request is "
     "answered exactly once or aborted with the connection ending / the exception re-raised in the serving thread "
     "(outcome_total), building a proxy's class after the peer's HANDLE_INSPECT answer only looks the peer-chosen dotted "
     "name up in sys.modules and does one getattr (classLookup: never an import; closed_world_class_factory), and the "
